@@ -5,10 +5,12 @@ import sys, os, shutil, json, subprocess
 prop, slug, needs, caught_by, what = sys.argv[1:6]
 wt = f"/tmp/wt-{prop}"
 wtdir = sys.argv[6] if len(sys.argv) > 6 else wt
+patch_name = sys.argv[7] if len(sys.argv) > 7 else "patch.diff"
+demo_name = sys.argv[8] if len(sys.argv) > 8 else None
 d = f"/verif/seeded/{prop}-{slug}"
 os.makedirs(d, exist_ok=True)
-shutil.copy(f"{wtdir}/patch.diff", f"{d}/patch.diff")
-demo = [f for f in os.listdir(f"{wtdir}/tests") if f.startswith("demo_")][0]
+shutil.copy(f"{wtdir}/{patch_name}", f"{d}/patch.diff")
+demo = demo_name or [f for f in os.listdir(f"{wtdir}/tests") if f.startswith("demo_")][0]
 shutil.copy(f"{wtdir}/tests/{demo}", f"{d}/{demo}")
 for rep in ("REPORT.txt", "REPORT.md"):
     if os.path.exists(f"{wtdir}/{rep}"):
